@@ -85,7 +85,8 @@ def check_frame(tb):
 class Ctx(object):
     """Per-task context: counters, samples, violations."""
 
-    def __init__(self, prop, task, tier, seed, excluded):
+    def __init__(self, prop, task, tier, seed, excluded, shared=None):
+        self.shared = shared                # result of the module's prepare(tier), if it has one
         self.prop = prop
         self.task = task
         self.tier = tier
@@ -238,13 +239,13 @@ def _setup_path():
 
 
 def _run_task(args):
-    prop, modname, idx, tier, seed, excluded = args
+    prop, modname, idx, tier, seed, excluded, shared = args
     assert "periodictable" not in sys.modules
     t0 = time.time()
     try:
         mod = importlib.import_module(modname)
         name, fn, kw = mod.tasks(tier)[idx]
-        ctx = Ctx(prop, name, tier, seed, excluded)
+        ctx = Ctx(prop, name, tier, seed, excluded, shared)
         try:
             fn(ctx, **kw)
         except Violation as v:
@@ -278,9 +279,9 @@ def _slug(s):
 
 def _probe_known(args):
     """Run the reproducer of one known finding in a fresh process."""
-    prop, modname, entry, tier, seed = args
+    prop, modname, entry, tier, seed, shared = args
     mod = importlib.import_module(modname)
-    ctx = Ctx(prop, "known:" + entry["id"], tier, seed, [])
+    ctx = Ctx(prop, "known:" + entry["id"], tier, seed, [], shared)
     try:
         ctx.check(lambda c, case: mod.replay(c, case), entry["reproducer"])
     except Exception:  # noqa
@@ -312,12 +313,21 @@ def main(argv=None):
         print(meta["error"])
         return 2
 
+    # optional module hook: values computed once, in a fresh process, and handed to every task
+    shared = None
+    if meta.get("has_prepare"):
+        with mp.Pool(1) as p0:
+            shared = p0.apply(_prepare, (modname, a.tier))
+        if isinstance(shared, dict) and "__error__" in shared:
+            print("HARNESS-ERROR prepare: %s" % shared["__error__"])
+            return 2
+
     if a.replay:
         with open(a.replay) as f:
             rp = json.load(f)
         with mp.Pool(1) as p0:
             r = p0.apply(_probe_known, ((prop, modname, dict(id="replay", reproducer=rp["case"]),
-                                         a.tier, seed),))
+                                         a.tier, seed, shared),))
         if "error" in r:
             print(r["error"])
             return 2
@@ -334,7 +344,7 @@ def main(argv=None):
     known = [e for e in load_known(prop) if e.get("status") == "known"]
     fixed = [e for e in load_known(prop) if e.get("status") == "fixed"]
     with mp.Pool(min(a.jobs, max(1, len(known) + len(fixed))), maxtasksperchild=1) as pk:
-        rs = pk.map(_probe_known, [(prop, modname, e, a.tier, seed) for e in known + fixed], 1)
+        rs = pk.map(_probe_known, [(prop, modname, e, a.tier, seed, shared) for e in known + fixed], 1)
     harness_errors = []
     regressions = []
     for e, r in zip(known + fixed, rs):
@@ -354,7 +364,7 @@ def main(argv=None):
 
     ntasks = meta["ntasks"]
     idxs = [i for i in range(ntasks) if not a.only or a.only in meta["names"][i]]
-    jobs = [(prop, modname, i, a.tier, seed, excluded) for i in idxs]
+    jobs = [(prop, modname, i, a.tier, seed, excluded, shared) for i in idxs]
     results = []
     if jobs:
         # A wall-clock budget for the whole run: hitting it is inconclusive (exit 2), never a verdict.
@@ -468,13 +478,20 @@ def main(argv=None):
     return rc
 
 
+def _prepare(modname, tier):
+    try:
+        return importlib.import_module(modname).prepare(tier)
+    except BaseException:  # noqa
+        return {"__error__": traceback.format_exc()}
+
+
 def _meta(modname, tier):
     try:
         mod = importlib.import_module(modname)
         ts = mod.tasks(tier)
         return dict(ntasks=len(ts), names=[t[0] for t in ts], rule=mod.RULE,
                     assumptions=list(getattr(mod, "ASSUMPTIONS", [])),
-                    exhaustive=getattr(mod, "EXHAUSTIVE", False),
+                    exhaustive=getattr(mod, "EXHAUSTIVE", False), has_prepare=hasattr(mod, "prepare"),
                     exhaustive_note=getattr(mod, "EXHAUSTIVE_NOTE", ""))
     except BaseException:  # noqa
         return dict(error=traceback.format_exc())
